@@ -114,3 +114,69 @@ fn d8_fen_end_stubbed() {
     let mut s = crate::src::KSrc;
     crate::c12::fen_board_end::<_, 5>(&mut s);
 }
+
+#[kani::proof]
+#[kani::unwind(66)]
+#[kani::stub(owlchess::attack::rook, crate::stubs::rook_stub)]
+#[kani::stub(owlchess::attack::bishop, crate::stubs::bishop_stub)]
+#[kani::stub(owlchess::legal::Checker::is_legal, crate::s6::is_legal_abs)]
+fn d9_wiring_concrete() {
+    // white: K h6, P d5, P g4 ; black: K d2, B f2, B b2 (white to move)
+    let b = Board::from_fen_like();
+    crate::s6::reset(owlchess::Move::NULL, false);
+    let h = b.has_legal_moves();
+    let first = unsafe { owlchess::verif::FIRST_LEGAL };
+    let total = unsafe { crate::s6::ASKED_TOTAL };
+    kani::cover!(h, "has move");
+    kani::cover!(!h, "no move");
+    if let Some(mv) = first {
+        assert!(mv.src_cell().color() == Some(owlchess::Color::White), "first legal move is by a white man");
+    }
+    assert!(total <= 12, "asked at most 12 times");
+}
+
+trait FromFenLike {
+    fn from_fen_like() -> Board;
+}
+impl FromFenLike for Board {
+    fn from_fen_like() -> Board {
+        use owlchess::{Cell, RawBoard};
+        let mut r = RawBoard::empty();
+        r.cells[23] = Cell::from_index(2);
+        r.cells[27] = Cell::from_index(1);
+        r.cells[38] = Cell::from_index(1);
+        r.cells[51] = Cell::from_index(8);
+        r.cells[53] = Cell::from_index(10);
+        r.cells[49] = Cell::from_index(10);
+        Board::try_from(r).unwrap()
+    }
+}
+
+#[kani::proof]
+#[kani::unwind(66)]
+#[kani::stub(owlchess::attack::rook, crate::stubs::rook_stub)]
+#[kani::stub(owlchess::attack::bishop, crate::stubs::bishop_stub)]
+#[kani::stub(owlchess::legal::Checker::is_legal, crate::s6::is_legal_abs)]
+fn d10_wiring_semi() {
+    use owlchess::{Cell, RawBoard};
+    let mut r = RawBoard::empty();
+    r.cells[23] = Cell::from_index(2);
+    let c27: u8 = kani::any();
+    kani::assume(c27 <= 1);
+    r.cells[27] = Cell::from_index(c27 as usize);
+    r.cells[38] = Cell::from_index(1);
+    r.cells[51] = Cell::from_index(8);
+    r.cells[53] = Cell::from_index(10);
+    r.cells[49] = Cell::from_index(10);
+    let b = match Board::try_from(r) { Ok(b) => b, Err(_) => return };
+    let p = pos_of(b.raw());
+    let mut s = crate::src::KSrc;
+    let t = any_m(&mut s);
+    let ans: bool = kani::any();
+    crate::s6::reset(mv_of(t), ans);
+    let h = b.has_legal_moves();
+    let t_candidate = semilegal_ref(&p, t) && t.kind != K_OO && t.kind != K_OOO;
+    let asked = unsafe { crate::s6::T_ASKED };
+    assert!(asked == 0 || t_candidate, "asked only about candidates");
+    assert!(h || !(t_candidate && ans), "no move only if target rejected");
+}
